@@ -68,7 +68,14 @@ def base_spec(rng):
     }
     if spec["halo"] == "resolved":
         spec["halo"] = max(xmax, ymax)
-    if rng.random() < 0.15:
+    r = rng.random()
+    if r < 0.03:
+        # an entry of more than 1 MiB (13 levels on a 48x64 grid)
+        spec.update(ny=48, nx=64, nz=13, levels=list(range(13)), domain=[128.0, 96.0], halo=16.0, modes=[8, 8], meas_pt=[10.0, 5.0], analytic=False)
+    elif r < 0.05:
+        # very many output levels (long level lists, long anything derived from them)
+        spec.update(ny=8, nx=8, nz=70, levels=list(range(70)), modes=[4, 4], analytic=False, prof=rng.choice(["const", "aniso", "shear"]))
+    if rng.random() < 0.15 and spec["nz"] not in (13, 70):
         # a larger, FFT-friendlier padded grid (32..52 points per side): more
         # than one FFTW algorithm is competitive there, so plan-dependent
         # rounding can show
